@@ -233,4 +233,12 @@ def ru_names_bound(ctx: Ctx) -> None:
     names_rule(ctx)
 
 
-RULES = [r1_if, r2_for, r3_parser_binding, r4_only_the_condition_is_guarded, r5_named_scope_in_iteration, r6_no_capacity_limit_on_scope_log, r7_iteration_scope_replay, rb_binding_agreement, rm_no_process_lifetime_results, ru_names_bound]
+
+def r8_assignment_vs_label_lookahead(ctx: Ctx) -> None:
+    """`.for k:=0, n` and `k := 0` are the same header: the `:` / `:=` decision of lex_identifier (C16.R6)"""
+    from .c16 import r6_label_vs_assign_lookahead
+
+    r6_label_vs_assign_lookahead(ctx)
+
+
+RULES = [r1_if, r2_for, r3_parser_binding, r4_only_the_condition_is_guarded, r5_named_scope_in_iteration, r6_no_capacity_limit_on_scope_log, r7_iteration_scope_replay, r8_assignment_vs_label_lookahead, rb_binding_agreement, rm_no_process_lifetime_results, ru_names_bound]
